@@ -420,3 +420,104 @@ Example float_example_alt2 :
   let sp := {| f_neg := false; f_ds := [49]; f_frac := None; f_exp := Some (CH_e, EMinus, [51]) |} in
   floatsp_wf sp /\ floatsp_src sp = [49;101;45;51] /\ floatsp_decimal sp = (1%Z, (-3)%Z).
 Proof. repeat split; try discriminate. Qed.
+
+(** * Soundness of the classification: what [num_token] returns is a spelling
+    of that kind, and the token is a prefix of the text. *)
+
+Lemma opt_minus_spec s m r0 : opt_minus s = (m, r0) -> exists neg, m = sign_src neg /\ s = m ++ r0.
+Proof.
+  unfold opt_minus. destruct s as [|c r]; [intros H; inversion H; exists false; split; reflexivity|].
+  destruct (N.eqb_spec c MINUS) as [->|_]; intros H; inversion H; subst.
+  - exists true. split; reflexivity.
+  - exists false. split; reflexivity.
+Qed.
+
+Lemma match_exp_spec plus minus s v r : match_exp plus minus s = Some (v, r) ->
+  exists e sg xs, v = e :: expsign_src sg ++ xs /\ s = v ++ r /\ is_e e = true
+    /\ all_digits xs /\ xs <> [] /\ (sg = EPlus -> plus = true) /\ (sg = EMinus -> minus = true).
+Proof.
+  unfold match_exp. destruct s as [|e r0]; [discriminate|].
+  destruct (is_e e) eqn:He; [|discriminate].
+  assert (Hgen : forall sg r1, r0 = expsign_src sg ++ r1 ->
+            (sg = EPlus -> plus = true) -> (sg = EMinus -> minus = true) ->
+            (let '(ds, r2) := span_digits r1 in
+             match ds with [] => None | _ :: _ => Some (e :: expsign_src sg ++ ds, r2) end) = Some (v, r) ->
+            exists e' sg' xs, v = e' :: expsign_src sg' ++ xs /\ e :: r0 = v ++ r /\ is_e e' = true
+              /\ all_digits xs /\ xs <> [] /\ (sg' = EPlus -> plus = true) /\ (sg' = EMinus -> minus = true)).
+  { intros sg r1 Er Hp Hm H. destruct (span_digits r1) as [ds r2] eqn:Es.
+    apply span_digits_spec in Es as (E1 & E2 & _).
+    destruct ds as [|d t]; [discriminate|]. inversion H; subst.
+    exists e, sg, (d :: t). repeat split; try assumption; try discriminate.
+    cbn [app]. rewrite <- app_assoc. reflexivity. }
+  destruct r0 as [|c r'].
+  - intros H. apply (Hgen ENone []); try reflexivity; try discriminate. exact H.
+  - destruct (plus && (c =? PLUS)) eqn:Ep; [|destruct (minus && (c =? MINUS)) eqn:Em].
+    + apply andb_true_iff in Ep as [Ep1 Ep2]. apply N.eqb_eq in Ep2; subst c. cbn [orb].
+      intros H. apply (Hgen EPlus r'); try reflexivity; try discriminate; [intros _; assumption|exact H].
+    + apply andb_true_iff in Em as [Em1 Em2]. apply N.eqb_eq in Em2; subst c. cbn [orb].
+      intros H. apply (Hgen EMinus r'); try reflexivity; try discriminate; [intros _; assumption|exact H].
+    + cbn [orb]. intros H. apply (Hgen ENone (c :: r')); try reflexivity; try discriminate. exact H.
+Qed.
+
+Lemma match_exp_minus_spec s v r : match_exp_minus s = Some (v, r) ->
+  exists e xs, v = e :: MINUS :: xs /\ s = v ++ r /\ is_e e = true /\ all_digits xs /\ xs <> [].
+Proof.
+  unfold match_exp_minus. destruct s as [|e [|c r1]]; try discriminate.
+  destruct (is_e e) eqn:He; [|discriminate]. destruct (N.eqb_spec c MINUS) as [->|_]; [|discriminate].
+  cbn [andb]. destruct (span_digits r1) as [ds r2] eqn:Es.
+  apply span_digits_spec in Es as (E1 & E2 & _). destruct ds as [|d t]; [discriminate|].
+  intros H; inversion H; subst. exists e, (d :: t). repeat split; try assumption; discriminate.
+Qed.
+
+Theorem num_token_sound s k v r : num_token s = Some (k, v, r) ->
+  s = v ++ r /\
+  match k with
+  | KInt => exists sp, intsp_wf sp /\ v = intsp_src sp
+  | KFloat => exists sp, floatsp_wf sp /\ v = floatsp_src sp
+  end.
+Proof.
+  unfold num_token. destruct (match_float s) as [[fv fr]|] eqn:Ef.
+  - intros H; inversion H; subst. unfold match_float in Ef.
+    destruct (opt_minus s) as [m r0] eqn:Em. apply opt_minus_spec in Em as (neg & -> & ->).
+    destruct (span_digits r0) as [ds r1] eqn:Es. apply span_digits_spec in Es as (-> & Hd & _).
+    destruct ds as [|d0 t0] eqn:Eds; [discriminate|]. rewrite <- Eds in *.
+    assert (Hn : ds <> []) by (rewrite Eds; discriminate).
+    assert (Alt2 : match match_exp_minus r1 with
+                   | Some (ex, r2) => Some (sign_src neg ++ ds ++ ex, r2) | None => None end = Some (v, r) ->
+                   sign_src neg ++ ds ++ r1 = v ++ r /\ exists sp, floatsp_wf sp /\ v = floatsp_src sp).
+    { destruct (match_exp_minus r1) as [[ex r2]|] eqn:E2; [|discriminate].
+      apply match_exp_minus_spec in E2 as (e & xs & -> & -> & He & Hx & Hxn).
+      intros H'; inversion H'; subst. split; [rewrite <- !app_assoc; reflexivity|].
+      exists {| f_neg := neg; f_ds := ds; f_frac := None; f_exp := Some (e, EMinus, xs) |}.
+      split; [repeat split; assumption|]. unfold floatsp_src. cbn. reflexivity. }
+    destruct r1 as [|c r2]; [apply Alt2; exact Ef|].
+    destruct (N.eqb_spec c DOT) as [->|_]; [|apply Alt2; exact Ef].
+    destruct (span_digits r2) as [fs r3] eqn:Es2. apply span_digits_spec in Es2 as (-> & Hfs & _).
+    destruct fs as [|f0 ft] eqn:Efs; [apply Alt2; exact Ef|]. rewrite <- Efs in *.
+    assert (Hfn : fs <> []) by (rewrite Efs; discriminate).
+    destruct (match_exp true true r3) as [[ex r4]|] eqn:E3.
+    + apply match_exp_spec in E3 as (e & sg & xs & -> & -> & He & Hx & Hxn & _).
+      inversion Ef; subst. split; [rewrite <- !app_assoc; cbn [app]; rewrite <- !app_assoc; reflexivity|].
+      exists {| f_neg := neg; f_ds := ds; f_frac := Some fs; f_exp := Some (e, sg, xs) |}.
+      split; [repeat split; assumption|]. unfold floatsp_src. cbn. rewrite <- !app_assoc. reflexivity.
+    + inversion Ef; subst. split; [rewrite <- !app_assoc; cbn [app]; rewrite <- !app_assoc; reflexivity|].
+      exists {| f_neg := neg; f_ds := ds; f_frac := Some fs; f_exp := None |}.
+      split; [repeat split; assumption|]. unfold floatsp_src. cbn. rewrite app_nil_r. reflexivity.
+  - destruct (match_int s) as [[iv ir]|] eqn:Ei; [|discriminate].
+    intros H; inversion H; subst. unfold match_int in Ei.
+    destruct (opt_minus s) as [m r0] eqn:Em. apply opt_minus_spec in Em as (neg & -> & ->).
+    destruct (span_digits r0) as [ds r1] eqn:Es. apply span_digits_spec in Es as (-> & Hd & _).
+    destruct ds as [|d0 t0] eqn:Eds; [discriminate|]. rewrite <- Eds in *.
+    assert (Hn : ds <> []) by (rewrite Eds; discriminate).
+    destruct (match_exp true false r1) as [[ex r2]|] eqn:E3.
+    + apply match_exp_spec in E3 as (e & sg & xs & -> & -> & He & Hx & Hxn & _ & Hm).
+      inversion Ei; subst. split; [rewrite <- !app_assoc; reflexivity|].
+      destruct sg; [| |discriminate (Hm eq_refl)].
+      * exists {| i_neg := neg; i_ds := ds; i_exp := Some (e, false, xs) |}.
+        split; [repeat split; assumption|reflexivity].
+      * exists {| i_neg := neg; i_ds := ds; i_exp := Some (e, true, xs) |}.
+        split; [repeat split; assumption|reflexivity].
+    + inversion Ei; subst. split; [rewrite <- !app_assoc; reflexivity|].
+      exists {| i_neg := neg; i_ds := ds; i_exp := None |}.
+      split; [repeat split; assumption|]. unfold intsp_src. cbn. rewrite app_nil_r. reflexivity.
+Qed.
